@@ -92,8 +92,10 @@ def match_close(s, i, op, cl):
     raise ParseError("unbalanced " + op)
 
 
-def fn_body(text, name):
-    m = re.search(r"\bfn\s+" + re.escape(name) + r"\s*(<[^>]*>)?\s*\(", text)
+def fn_body(text, name, params=None):
+    """body of `fn name`; `params` (a regex) selects among several functions of that name by their parameter list"""
+    pat = r"\bfn\s+" + re.escape(name) + r"\s*(<[^>]*>)?\s*\(" + (params if params else "")
+    m = re.search(pat, text)
     if not m:
         raise ParseError("fn %s not found" % name)
     i = text.index("(", m.start())
@@ -584,7 +586,21 @@ def parse_strings(S):
     s = strip_comments(src("convert/svg.rs"))
     S["to_str"] = rust_str_literals(fn_body(s, "to_str"))
     S["path"] = rust_str_literals(fn_body(s, "path"))
-    S["image"] = rust_str_literals(fn_body(s, "image"))
+    ib = fn_body(s, "image", r"\s*&self\s*,\s*n\s*:")
+    S["image"] = rust_str_literals(ib)
+    rects = {}
+    for shp in ["Square", "Circle", "RoundedSquare"]:
+        mm = re.search(r"ImageBackgroundShape::" + shp + r"\s*=>\s*\{\s*r(#*)\"(.*?)\"\1\s*\}", ib, re.S)
+        if not mm:
+            raise ParseError("image(): rect template for " + shp)
+        rects[shp] = mm.group(2)
+    S["image_rects"] = rects
+    el = [x for x in S["image"] if x.startswith("<image")]
+    if len(el) != 1:
+        raise ParseError("image(): <image> template")
+    S["image_elem"] = el[0]
+    reps = re.findall(r"\.replace\(\"(\{\d\})\"", ib)
+    S["image_rect_holes"] = reps
     S["escape"] = rust_str_literals(fn_body(s, "escape_attribute")) if "fn escape_attribute" in s else []
     eb = fn_body(s, "escape_attribute") if "fn escape_attribute" in s else ""
     S["escape_arms"] = [[a, b] for a, b in re.findall(r"'(\\?.)'\s*=>\s*out\.push_str\(\"([^\"]*)\"\)", eb)]
@@ -707,6 +723,11 @@ def emit_strings(S):
     A("Definition shape_functions_order : list (list N) := %s." % coq_list(S["shape_functions"], coq_bytes))
     for key in ["rgba2hex", "to_str", "path", "image", "escape"]:
         A("Definition %s_lits : list (list N) := %s." % (key, coq_list(S[key], coq_bytes)))
+    A("Definition image_rect_square_src : list N := %s. (* %s *)" % (coq_bytes(S["image_rects"]["Square"]), S["image_rects"]["Square"]))
+    A("Definition image_rect_circle_src : list N := %s. (* %s *)" % (coq_bytes(S["image_rects"]["Circle"]), S["image_rects"]["Circle"]))
+    A("Definition image_rect_rounded_src : list N := %s. (* %s *)" % (coq_bytes(S["image_rects"]["RoundedSquare"]), S["image_rects"]["RoundedSquare"]))
+    A("Definition image_elem_src : list N := %s. (* %s *)" % (coq_bytes(S["image_elem"]), S["image_elem"]))
+    A("Definition image_rect_holes : list (list N) := %s." % coq_list(S["image_rect_holes"], coq_bytes))
     A("Definition escape_arms : list (list N * list N) := %s." %
       coq_list(S["escape_arms"], lambda e: "(" + coq_bytes(e[0].encode().decode("unicode_escape")) + ", " + coq_bytes(e[1]) + ")"))
     A("")
